@@ -102,10 +102,11 @@ ConnFaults(D, m, inst, c) ==
 
 (* a port without an explicit connection is still connected if a live connection references it (inst.port used as a term) *)
 InstFaults(D, m, inst, refs) ==
-  LET given == {inst.conns[k].p : k \in 1..Len(inst.conns)} \cup {r[2] : r \in {x \in refs : x[1] = inst.n}}
+  LET explicit == {inst.conns[k].p : k \in 1..Len(inst.conns)}
+      given == explicit \cup {r[2] : r \in {x \in refs : x[1] = inst.n}}
       want  == {f.n : f \in Range(Formals(D, inst.of))}
   IN (IF want \ given # {} THEN {"missing_connection"} ELSE {})
-     \cup (IF Cardinality(given) # Len(inst.conns) THEN {"duplicate_connection"} ELSE {})
+     \cup (IF Cardinality(explicit) # Len(inst.conns) THEN {"duplicate_connection"} ELSE {})
      \cup UNION {ConnFaults(D, m, inst, inst.conns[k]) : k \in 1..Len(inst.conns)}
      \cup (IF inst.kind = "array" /\ inst.arr < 1 THEN {"empty_array"} ELSE {})
 
